@@ -101,7 +101,7 @@ def encode(history, warm, cold):
                 s_keys.append(sk_i([qid, vt, fixed, OPTS[how]]))
                 sev = w['sql_events']
                 s_obs.append(sev == ['Hit'] if sev in (['Hit'], ['Miss']) else None)
-            q = q_i([qid, vt, fixed, how, vals])
+            q = q_i([qid, vt, fixed, how, c['args'][-1:]])          # the result-cache key: query + options + ARGUMENTS reaching the SQL
             exec_tab.append((version, q, r_i(c['rows'])))
             steps.append((1 if how == 'count' else 0, q))
             answers.append(r_i(w['rows']))
@@ -162,6 +162,9 @@ def correspondence(ctx):
             for e in w.get('sql_events', []): dist['sql_events'][e] = dist['sql_events'].get(e, 0) + 1
             if any(e in ('Hit', 'Replaced') for e in w.get('translator_events', []) + w.get('sql_events', [])):
                 nontriv.add(H5.qkey(step))
+        if any(c and c.get('error') and c.get('sql') for c in cold):
+            dist['histories_skipped_cold_run_raised_at_execution'] = dist.get('histories_skipped_cold_run_raised_at_execution', 0) + 1
+            continue            # e.g. UnrepeatableReadError after a raw write: the session is rolled back, no oracle for the rest
         enc = encode(h, warm, cold)
         if not enc: continue
         for what, b in enc:
@@ -177,12 +180,17 @@ def correspondence(ctx):
 # ------------------------------------------------------------------------------------------------ search
 
 def divergences(history):
-    warm, cold = H5.run_history(history, True), H5.run_history(history, False)
+    warm, cold = H5.run_history(history, True), H5.run_history(history, False, instrument=True)
     return H5.compare(history, warm, cold), warm, cold
 
 
+def fails_with(cand, key):
+    bad, w, c = divergences(cand)
+    return any(H5.classify(cand, j, c) == key for j, _ in bad)
+
+
 def make_failure(history, i, what, warm, cold):
-    key = H5.classify(history, i)
+    key = H5.classify(history, i, cold)
     step = history[i]
     msg = 'history of %d steps, step %d %s: warm caches give %s, cold caches give %s (%s differ)' % (
         len(history), i, json.dumps(step), json.dumps(warm[i]['rows'] if warm[i] else None)[:200], json.dumps(cold[i]['rows'] if cold[i] else None)[:200], what)
@@ -206,12 +214,12 @@ def search(ctx, deep):
             if step[0] == 'query' and w is not None:
                 evals += 1; dist['query_steps'] += 1; nontriv.add(H5.qkey(step))
         for i, what in bad[:1]:
-            key = H5.classify(h, i)
+            key = H5.classify(h, i, cold)
             seen[key] = seen.get(key, 0) + 1
             if seen[key] <= 1:
-                small = H5.shrink_history(h[:i + 1], lambda cand: any(H5.classify(cand, j) == key for j, _ in divergences(cand)[0]))
+                small = H5.shrink_history(h[:i + 1], lambda cand: fails_with(cand, key))
                 b2, w2, c2 = divergences(small)
-                j = [j for j, _ in b2 if H5.classify(small, j) == key]
+                j = [j for j, _ in b2 if H5.classify(small, j, c2) == key]
                 failures.append(make_failure(small, j[0], dict(b2)[j[0]], w2, c2) if j else make_failure(h, i, what, warm, cold))
     return Search(evaluations=evals, failures=failures, nontrivial=len(nontriv), distribution=dist, exhaustive=False,
                   samples=[{'history': hs[-1]}])
